@@ -318,6 +318,12 @@ func judgeClient(c clientCase, res *scen.Result, runErr error) (string, error) {
 						}
 					} else if cr.OK || cr.Err == "" {
 						return "violation", fmt.Errorf("tag %d: PHONE_MIGRATE_%d names a data centre that is not configured, the call must return an error; got %+v", r.Tag, c.DC, cr)
+					} else {
+						for _, ev := range res.Events {
+							if ev.Server == fmt.Sprintf("dc-%d", c.DC) && (ev.Kind == "req" || ev.Kind == "enc" || ev.Kind == "plain") {
+								return "violation", fmt.Errorf("tag %d: data centre %d is not configured for this client, yet the client talked to the address another client of the process holds for it", r.Tag, c.DC)
+							}
+						}
 					}
 					continue
 				}
@@ -397,6 +403,10 @@ func TestC17Client(t *testing.T) {
 				sc.RPC.DCs = []int{7}
 			} else {
 				c.DC = 9
+				if rapid.Bool().Draw(t, "otherclient") {
+					// another client of the same process knows data centre 9; this one does not
+					sc.RPC.OtherClientDCs = []int{9}
+				}
 			}
 			// the migrating request is told to go to another data centre while the other calls are still in flight
 			steps = append(steps, scen.Step{Op: "answer", Items: []scen.AnsItem{{Tag: c.Migrate, ErrCode: 303, ErrText: fmt.Sprintf("PHONE_MIGRATE_%d", c.DC)}}})
@@ -416,7 +426,11 @@ func TestC17Client(t *testing.T) {
 		res, runErr := scen.RunChild(sc, 120*time.Second)
 		verdict, err := judgeClient(c, res, runErr)
 		b, _ := json.Marshal(sc.RPC.Steps)
-		run.Case(verdict != "inconclusive", evid.Hash(b), "client:"+family, "client-verdict:"+verdict)
+		cls := []string{"client:" + family, "client-verdict:" + verdict}
+		if len(sc.RPC.OtherClientDCs) > 0 {
+			cls = append(cls, "client:data-centre-known-to-another-client-only")
+		}
+		run.Case(verdict != "inconclusive", evid.Hash(b, len(sc.RPC.OtherClientDCs)), cls...)
 		if err != nil {
 			if strings.HasPrefix(err.Error(), "INFRA:") {
 				t.Skipf("%v", err)
